@@ -751,6 +751,9 @@ R6_TABLE = [
 
 def rule_R6_redirects(text, log):
     out = text
+    if 'b"MQTT".as_ref().encode(' in out:
+        log.append(('R6', 'b"MQTT".as_ref().encode(buf)', 'vx_encode_mqtt(buf)'))
+        out = re.sub(r'b"MQTT"\.as_ref\(\)\.encode\((\w+)\)', r'vx_encode_mqtt(\1)', out)
     for pat, rep in R6_TABLE:
         rx = re.compile(pat)
         while True:
